@@ -483,6 +483,7 @@ pub fn run_program(prog: &Value, out: &mut dyn Write) {
             }
         }
         rec.insert("lin".into(), json!(true));
+        rec.insert("tbar".into(), json!(tickers.first().copied().unwrap_or(0)));      // the bar the steady ticker belongs to (0: none)
         rec.insert("calls".into(), calls.clone());
         rec.insert("gets".into(), json!(gets));
         rec.insert("cfg".into(), json!({"w": setup["w"].as_u64().unwrap_or(40), "h": setup["h"].as_u64().unwrap_or(10), "multi": multi}));
